@@ -18,10 +18,12 @@ import (
 // last epoch change, and the expected pool after an epoch change computed from the pool before it).
 
 type c34Case struct {
-	N    int   `json:"n"`
-	MBCV int   `json:"mbcv"`          // genesis MaxBlockChangeView (small values let anybody commit after a timeout)
-	Own  int   `json:"own,omitempty"` // ownership layout of the genesis validators, see ownerOf
-	Ops  []gop `json:"ops"`
+	N       int   `json:"n"`
+	MBCV    int   `json:"mbcv"`              // genesis MaxBlockChangeView (small values let anybody commit after a timeout)
+	Own     int   `json:"own,omitempty"`     // ownership layout of the genesis validators, see ownerOf
+	Idx     int   `json:"idx,omitempty"`     // genesis peer index layout, see genesisIndex
+	Persist bool  `json:"persist,omitempty"` // every block boundary flushes the block overlay into the store
+	Ops     []gop `json:"ops"`
 }
 
 const (
@@ -31,7 +33,8 @@ const (
 
 func genC34(t *rapid.T) c34Case {
 	n := rapid.IntRange(4, ev.Scale(8, 16)).Draw(t, "n")
-	c := c34Case{N: n, MBCV: rapid.SampledFrom([]int{60000, 60000, 3, 6}).Draw(t, "mbcv"), Own: rapid.SampledFrom([]int{0, 0, 0, 1, 2, 3, 4}).Draw(t, "own")}
+	c := c34Case{N: n, MBCV: rapid.SampledFrom([]int{60000, 60000, 3, 6}).Draw(t, "mbcv"), Own: rapid.SampledFrom([]int{0, 0, 0, 1, 2, 3, 4}).Draw(t, "own"),
+		Idx: rapid.SampledFrom([]int{0, 0, 0, 1, 2, 3, 4, 5, 6}).Draw(t, "idx"), Persist: rapid.Bool().Draw(t, "persist")}
 	variant := func(t *rapid.T) int {
 		if rapid.IntRange(0, 5).Draw(t, "variantClass") == 0 {
 			return rapid.IntRange(1, numVariant-1).Draw(t, "variant")
@@ -42,7 +45,7 @@ func genC34(t *rapid.T) c34Case {
 	var ops []gop
 	// optional scenario prefix: get candidates into the pool so that quitting and blacklisting have room
 	if rapid.IntRange(0, 9).Draw(t, "prefix") < 7 {
-		k := rapid.IntRange(1, 3).Draw(t, "cands")
+		k := rapid.IntRange(1, spareNodes).Draw(t, "cands")
 		for i := 0; i < k; i++ {
 			ops = append(ops, gop{K: kRegCand, A: n + i, B: n + i}, gop{K: kRound, M: kApprCand, B: n + i, A: rapid.IntRange(0, n-1).Draw(t, "s")})
 		}
@@ -135,7 +138,11 @@ func runC34(ctx *ev.Ctx, c c34Case) {
 	if mb == 0 {
 		mb = 60000
 	}
-	e := newEng(ctx, c.N, mb, c.Own)
+	e := newEng(ctx, c.N, engOpts{mbcv: mb, own: c.Own, idx: c.Idx, persist: c.Persist})
+	if c.Persist {
+		e.label("blocks-persisted")
+	}
+	e.label(fmt.Sprintf("genesis-index-layout:%d", mod(c.Idx, 7)))
 	m := &c34Model{black: map[string]string{}}
 	noF6 := ev.IsKnown("C34", c34F6) && !ctx.Replaying
 	noF9 := ev.IsKnown("C34", c34F9) && !ctx.Replaying
@@ -352,7 +359,7 @@ func c34Invariants(e *eng, m *c34Model, p poolObs, what string, op gop) {
 
 func TestC34(t *testing.T) {
 	ev.Drive(t, "C34",
-		"cases: genesis pool of N=4..8 (thorough 16) validators, genesis MaxBlockChangeView 60000 or 3/6 blocks; optional prefix (1..3 candidates registered and approved, epoch change, a quit, a blacklisting round, epoch change) "+
+		"cases: genesis pool of N=4..8 (thorough 16) validators with peer indices 1..n, offset, with gaps, descending or large, owner wallets equal to or separate from the node addresses, block boundaries persisted into the store in half of the cases, genesis MaxBlockChangeView 60000 or 3/6 blocks; optional prefix (1..4 candidates registered and approved, epoch change, a quit, a blacklisting round, epoch change) "+
 			"then 3..40 (thorough 90) ops: register/unregister candidate, approve (rounds of k validators and singles), quit, blackNode rounds (lists of 1..3 incl. duplicates), whiteNode rounds, "+
 			"commitDpos (operator multisig / arbitrary account, also after the timeout), several ops per block, updateConfig, initConfig invoked again by an outsider; one key string in six is a non-canonical encoding "+
 			"(upper/mixed-case hex, uncompressed point, algorithm-prefixed) of a pool key. "+
